@@ -220,6 +220,7 @@ package types
 //@   ensures evType(result) == "akash.v1" && carriesMHead(evAttrs(result), "lease-closed") && carriesLID(evAttrs(result), e.ID) && carriesPrice(evAttrs(result), e.Price)
 // every event this module emits parses back to the typed event that was emitted
 //@ func ParseEvent
+//@   ensures [foreign] ev.Type != "akash.v1" || ev.Module != "market" ==> result1 != nil
 //@   ensures [ocreated] forall id: OrderID {validBech32(id.Owner)} :: ev.Type == "akash.v1" && ev.Module == "market" && ev.Action == "order-created" && old(carriesOID(ev.Attributes, id))
 //@        && canonicalAddr(id.Owner) ==> result1 == nil && typeis(result0, EventOrderCreated) && unbox(result0, EventOrderCreated).ID == id
 //@   ensures [oclosed] forall id: OrderID {validBech32(id.Owner)} :: ev.Type == "akash.v1" && ev.Module == "market" && ev.Action == "order-closed" && old(carriesOID(ev.Attributes, id))
